@@ -179,12 +179,30 @@ class Parser:
                 self.next(); e = ('plus', e)
             elif t[0] == '?':
                 self.next(); e = ('opt', e)
-            elif t[0] == '{' and self.peek(1)[0] == 'num' and self.peek(2)[0] == '}':
-                self.next(); n = self.next()[1]; self.next()
-                assert n >= 1
-                r = e
-                for _ in range(n - 1):
-                    r = ('seq', e, r)
+            elif t[0] == '{' and self.peek(1)[0] in ('num', ','):
+                # e{n} | e{n,} | e{,m} | e{n,m}, unrolled exactly as pest_meta's optimizer does:
+                # n copies of e, then either e* (open upper bound) or (m-n) optionals, as one sequence
+                self.next()
+                lo = hi = None
+                if self.peek()[0] == 'num':
+                    lo = self.next()[1]
+                exact = True
+                if self.peek()[0] == ',':
+                    self.next(); exact = False
+                    if self.peek()[0] == 'num':
+                        hi = self.next()[1]
+                self.expect('}')
+                if exact:
+                    items = [e] * lo
+                elif hi is None:
+                    items = [e] * (lo or 0) + [('star', e)]
+                else:
+                    items = [e] * (lo or 0) + [('opt', e)] * (hi - (lo or 0))
+                if not items:
+                    raise SystemExit('pest2v: empty repetition')
+                r = items[-1]
+                for a in reversed(items[:-1]):
+                    r = ('seq', a, r)
                 e = r
             else:
                 return e
